@@ -336,12 +336,25 @@ def corpus():
     d7 = dict(base, notes=[[60, 100, c(0.26), c(0.26), 0, 0, 0, 0, 0, 0], [62, 1, c(0.24), c(0.2400001), 1, 0, 1, 4, 4, 4099]],
               tempos=[], tsigs=[], total=c(0.0))
     out.append({'op': 'abs', 'input': {'res': 2, 'desc': d7}})
+    # exhaustive small scope for the rejection clause: every list of <= 3 tempos (resp. time signatures)
+    # over 2 values x 2 times, i.e. every placement and every storage order of a second / third entry
+    tvals = [c(120.0), c(60.0)]
+    times = [c(0.0), c(2.0)]
+    pairs = [[t, v] for t in times for v in tvals]
+    for n in (1, 2, 3):
+        for combo in itertools.product(pairs, repeat=n):
+            out.append({'op': 'rel', 'input': {'res': 4, 'desc': dict(base, tempos=[list(x) for x in combo], tsigs=[])}})
+    tsv = [(4, 4), (3, 4)]
+    tpairs = [[t, a, b] for t in times for (a, b) in tsv]
+    for n in (1, 2, 3):
+        for combo in itertools.product(tpairs, repeat=n):
+            out.append({'op': 'rel', 'input': {'res': 4, 'desc': dict(base, tempos=[], tsigs=[list(x) for x in combo])}})
     return out
 
 
 def cases(rng, tier, n=None):
     thorough = tier == 'thorough'
-    nf, nr, ns, nq = (40000, 8000, 4000, 12000) if thorough else (700, 200, 150, 420)
+    nf, nr, ns, nq = (40000, 8000, 4000, 12000) if thorough else (600, 160, 120, 360)
     if n is not None:
         nf, nr, ns, nq = n, n // 3, n // 4, n // 2
     out = []
@@ -476,13 +489,13 @@ _HALF = Fraction(1, 2)
 _REL = Fraction(1, 2 ** 50)
 
 
-def _accept(p, exact_tie_claim=True):
+def _accept(p, exact_tie_claim=True, rel=_REL):
     """(lo, hi, want): the steps accepted as "the step nearest to the exact rational position
     p >= 0, ties up".  Outside a 2^-50-relative neighbourhood of a half-step boundary lo == hi ==
     floor(p + 1/2); inside it either neighbour is accepted (the float caveat made explicit in
     theorem q2s_nearest), except that an exact tie of an exactly representable product goes up."""
     want = math.floor(p + _HALF)
-    d = _REL * (p + 1)
+    d = rel * (p + 1)
     lo = math.floor(p + _HALF - d)
     hi = math.floor(p + _HALF + d)
     if lo != hi and exact_tie_claim and p + _HALF == want:
@@ -491,7 +504,9 @@ def _accept(p, exact_tie_claim=True):
 
 
 def _step_verdict(step, p, exact_tie_claim=True):
-    lo, hi, want = _accept(p, exact_tie_claim)
+    # float product (absolute / quantize_to_step): theorem q2s_nearest, 2^-50; exact rational tempo-relative
+    # position: theorem q2s_rel_nearest, 2^-49
+    lo, hi, want = _accept(p, exact_tie_claim, _REL if exact_tie_claim else 2 * _REL)
     if lo <= step <= hi:
         return None
     if exact_tie_claim and p + _HALF == want:
@@ -667,7 +682,7 @@ def _oracle_seq(case):
         return {'kind': 'total-steps-do-not-cover-notes', 'total': tq, 'max_end': max_end, **wit}
     if ns.total_time >= 0:
         # total_quantized_steps = max(step(total_time), every note end)
-        lo, hi, want = _accept(pos(ns.total_time), not rel)
+        lo, hi, want = _accept(pos(ns.total_time), not rel, 2 * _REL if rel else _REL)
         if not any((s if max_end is None else max(s, max_end)) == tq for s in range(lo, hi + 1)):
             return {'kind': 'total-steps-wrong', 'total': tq, 'want_total_time_step': want, 'max_end': max_end, **wit}
     for what, a, b in (('control-change', ns.control_changes, out.control_changes),
@@ -709,7 +724,7 @@ def oracle(case, io):
         t, spq, qpm, f = uncode(a[0]), a[1], uncode(a[2]), uncode(a[3])
         s1, s2 = io
         p = F(t) * F(spq) * F(qpm) / 60
-        d = _REL * 2 * (p + 1)
+        d = _REL * 4 * (p + 1)          # theorem stretch_invariance_float: 2^-48
         if math.floor(p + _HALF - d) == math.floor(p + _HALF + d) and s1 != s2:
             return {'kind': 'not-stretch-invariant', 't': t.hex(), 'spq': spq, 'qpm': qpm.hex(), 'f': f.hex(),
                     'steps': [s1, s2]}
@@ -717,11 +732,22 @@ def oracle(case, io):
     return _oracle_seq(case)
 
 
+def _near_boundary(p):
+    """within 2^-40 relative of a half-step boundary, or negative"""
+    if p < 0:
+        return True
+    fr = p + _HALF - math.floor(p + _HALF)
+    return min(fr, 1 - fr) <= Fraction(1, 2 ** 40) * (p + 1)
+
+
 def nontrivial(case, io):
     op, a = case['op'], case['input']
+    F = Fraction
     if op == 'q2s':
-        return len(a[0]) > 0
-    if op in ('q2s_rel', 'stretch', 'fdec'):
+        return any(_near_boundary(F(uncode(c)) * F(uncode(a[1]))) for c in a[0])
+    if op in ('q2s_rel', 'stretch'):
+        return _near_boundary(F(uncode(a[0])) * F(a[1]) * F(uncode(a[2])) / 60)
+    if op == 'fdec':
         return True
     if io[0] == 'EXC':
         return True
